@@ -12,17 +12,22 @@ from lib import gen_net
 
 sys.path.insert(0, str(VERIF / "tools" / "gen"))
 import c09_stats as tr_stats  # noqa: E402
+import c09_cluster as tr_cluster  # noqa: E402
 
 ID = "C09"
-PROPS_FILES = ["Gama/Props/C09.lean", "Gama/Props/C09Solvers.lean", "Gama/Props/C09Net.lean"]
-LEAN_TARGETS = ["Gama.Props.C09", "Gama.Props.C09Solvers", "Gama.Props.C09Net"]
+PROPS_FILES = ["Gama/Props/C09.lean", "Gama/Props/C09Solvers.lean", "Gama/Props/C09Net.lean", "Gama/Props/C09Cluster.lean"]
+LEAN_TARGETS = ["Gama.Props.C09", "Gama.Props.C09Solvers", "Gama.Props.C09Net", "Gama.Props.C09Cluster"]
 DRIVERS = ["drv_stats"]
 RULE = ("generated noisy networks (2D direction/distance fixed and free, small-dof intersections, levelling, "
         "correlated coordinate clusters) x sigma-act x conf-pr in (0,1) x sigma-apr in {0.1..100} x 4 algorithms; "
         "plus 60 seed-independent structured networks on the guards of the formulas (exactly diagonal 2x2 blocks with "
         "q_yy >, <, = q_xx x 4 algorithms; sigma-apr triples 1 / 1000 / 0.001 under gso and svd compared field by field "
-        "with the scaling law) and a 7835-argument grid over the guard boundaries (regenerated formula vs reference "
-        "model vs Python definition at Float); "
+        "with the scaling law; 6 networks x 4 algorithms with a PASSIVE observation in front of active ones with other "
+        "standard deviations in the same cluster: lone direction, point without coordinates, gross blunder removed by "
+        "remove_huge_abs_terms in an <obs>, a <height-differences>, a correlated <coordinates> and <vectors> cluster) and an "
+        "8093-argument grid over the guard boundaries and over every activity pattern of clusters of 1..5 observations "
+        "(regenerated formula vs reference model vs Python definition at Float); a random family of 2D networks with "
+        "1..3 observations made passive by the same three mechanisms; "
         "one evaluation = one reported quantity (accessor value or XML field) recomputed from its inputs; "
         "distinct = (network, quantity index); non-trivial = adjusted network with at least one unknown")
 TRUSTED = [
@@ -35,6 +40,10 @@ TRUSTED = [
     "IsLSSolution of the two adjustments (the conclusion of the C01 theorems) as hypotheses",
     "tools/gen/c09_stats.py also reads results/text/adjusted_{unknowns,observations}.h (every use of kki); the html and sql "
     "writers (html.cpp, localnetwork2sql.cpp) are outside the property (text/XML) and not read",
+    "tools/gen/c09_cluster.py (translator obsdata.h Cluster<Observation>::update / Cluster::stdDev, observation.cpp "
+    "Observation::stdDev -> Gama/Gen/ClusterUpdate.lean: statement order of the loop body incl. the position of "
+    "`p->cluster_index = index++` relative to `if (p->active())`), validated by executing its output (drv_stats op `cidx`) "
+    "next to the C++ on every adjusted observation",
 ]
 MODELLED = [
     "values of GNU_gama::Normal / Student: the driver is given their values at the argument the code must use; in the "
@@ -43,6 +52,8 @@ MODELLED = [
     "libm sqrt/atan2/fabs at Float; IEEE rounding (theorems are over R)",
     "LocalNetwork::stashed_ellipses (SVG-only cache in std_error_ellipse) is not modelled",
     "iostream formatting of the XML numbers (oracle tolerances follow the printed precision)",
+    "which observations LocalNetwork::revision_observations / remove_huge_abs_terms make passive (C14/C06's subject): the "
+    "cluster theorems hold for EVERY activity pattern; the harness reads the actual pattern from the real objects",
 ]
 ASSUMPTIONS = ["q_xx, q_bb, v'Pv, defect delivered by the solver are those of the least-squares problem (C01-C03)"]
 LEVEL_TEXT = ("Lean 4 theorems over the reals about every statistic formula of LocalNetwork (degrees of freedom, m0 "
@@ -59,7 +70,12 @@ LEVEL_TEXT = ("Lean 4 theorems over the reals about every statistic formula of L
               "<aposteriori>, <ratio>, <err-obs>/<err-adj>, the text writers' half-width product and the table of its sites) are regenerated from the C++ text on every run and proved "
               "equal to the reference model; model executed at Float next to an in-process LocalNetwork; every numeric "
               "field of the XML result recomputed from the other fields; when a formula changes, the argument where it "
-              "left the reference is found on a grid over the guard boundaries and realised as a network for gama-local.")
+              "left the reference is found on a grid over the guard boundaries and realised as a network for gama-local. "
+              "The standard deviation behind weight_obs (Observation::stdDev = cluster->stdDev(cluster_index)) is tied to the "
+              "weights of the adjustment: the loop of Cluster::update() and Cluster::stdDev are regenerated from obsdata.h and "
+              "proved to give every observation its position in the FULL list and its OWN variance for every activity pattern, "
+              "equal entry by entry to the facade model's obsStdDev (index list of activeCov()); the harness feeds the model the "
+              "own variance found by pointer search, independent of cluster_index.")
 LEVEL_NOTE = ("Not covered by the theorems: the values of the Normal/Student quantiles beyond what C17 proves, IEEE rounding; "
               "the solver facts are cited from C01/C03/C20 under their hypotheses (svd: certificate). sigma_L of observations in clusters with a non-diagonal "
               "covariance matrix uses the uncorrelated formula in the C++ (theorem _partial; see report).")
@@ -79,6 +95,16 @@ def translate(ctx):
     except (OSError, IndexError, ValueError, KeyError) as e:
         raise TieBroken("c09_stats translator", repr(e))
     f = ctx.lean / "Gama" / "Gen" / "StatsGen.lean"
+    if not f.exists() or f.read_text() != text:
+        f.write_text(text)
+    # Cluster<Observation>::update() (numbering of the observations of a cluster), Cluster::stdDev, Observation::stdDev
+    try:
+        text = tr_cluster.gen(ctx.repo)
+    except tr_cluster.Unreadable as e:
+        raise TieBroken("c09_cluster translator", str(e))
+    except (OSError, IndexError, ValueError, KeyError) as e:
+        raise TieBroken("c09_cluster translator", repr(e))
+    f = ctx.lean / "Gama" / "Gen" / "ClusterUpdate.lean"
     if not f.exists() or f.read_text() != text:
         f.write_text(text)
 
@@ -244,11 +270,132 @@ def spread_stdevs(rng, net):
         it["stdev"] = round(it["stdev"] * rng.choice([0.01, 0.1, 10.0, 100.0]), 6)
 
 
+# ---- clusters with a PASSIVE observation followed by active ones with other standard deviations
+#
+# `Observation::stdDev()` reads the FULL covariance matrix of the cluster at `cluster_index`, the adjustment takes the
+# sub-matrix of the active observations (`activeCov()`); the two agree only if `cluster_index` counts ALL observations
+# (C09_weight_obs_is_own_variance).  An observation becomes passive in LocalNetwork::revision_observations():
+#   (a) "lone-dir"   a station <obs> with a single direction in front of its distances (nothing to orient: dropped),
+#   (b) "no-coords"  an observation to a point without coordinates that cannot be computed,
+#   (c) "blunder"    an absolute term larger than tol-abs, removed by remove_huge_abs_terms().
+
+def _dist_item(pts, a, b, sd, rng, off=0.0):
+    return {"t": "distance", "to": b, "stdev": sd, "val": gen_net.dist2(pts[a], pts[b]) + rng.gauss(0, sd / 1e3) + off}
+
+
+def passive_net(rng, mech, sds=(5.0, 3.0, 7.0, 2.0, 4.0, 9.0)):
+    """two adjusted points Q, R trilaterated from F1..F3; `mech` puts a passive observation IN FRONT of active ones"""
+    pts = _fixed_frame()
+    pts["Q"] = {"x": 1090.0, "y": 1110.0, "status": "adj", "approx": True}
+    pts["R"] = {"x": 1150.0, "y": 1180.0, "status": "adj", "approx": True}
+    sd = lambda k: sds[k % len(sds)]
+    st = {f: [] for f in ("F1", "F2", "F3")}
+    k = 0
+    for f in ("F1", "F2", "F3"):
+        for t in ("Q", "R"):
+            st[f].append(_dist_item(pts, f, t, sd(k), rng))
+            k += 1
+    extra = []
+    if mech == "lone-dir":
+        for f, t, sdd in (("F1", "Q", 10.0), ("F2", "R", 8.0)):
+            st[f].insert(0, {"t": "direction", "to": t, "stdev": sdd,
+                             "val": (gen_net.bearing(pts[f], pts[t]) * 200.0 / math.pi) % 400.0})
+    elif mech == "no-coords":
+        # one distance each to two points without coordinates: neither can be computed, both observations are dropped
+        pts["X"] = {"status": "adj", "approx": False, "x": 0.0, "y": 0.0}
+        pts["Y"] = {"status": "adj", "approx": False, "x": 0.0, "y": 0.0}
+        st["F3"].insert(0, {"t": "distance", "to": "X", "stdev": 20.0, "val": 33.333})
+        st["F1"].insert(1, {"t": "distance", "to": "Y", "stdev": 11.0, "val": 44.444})
+    elif mech == "blunder":
+        # the sound measurement of the same distance is taken from the other end, so that the reported observations
+        # can be matched with the input in one way only (type + from + to)
+        st["F3"] = [_dist_item(pts, "F3", "R", 20.0, rng, off=5.0)] + [it for it in st["F3"] if it["to"] != "R"]   # 5 m > tol-abs = 1 m
+        st["F2"] = [_dist_item(pts, "F2", "Q", 15.0, rng, off=-7.5)] + [it for it in st["F2"] if it["to"] != "Q"]
+        extra.append({"kind": "obs", "from": "R", "orient": 0.0, "items": [_dist_item(pts, "R", "F3", 6.0, rng)]})
+        extra.append({"kind": "obs", "from": "Q", "orient": 0.0, "items": [_dist_item(pts, "Q", "F2", 2.5, rng)]})
+    elif mech == "blunder-dh":
+        for q, z in (("F1", 100.0), ("F2", 101.5), ("Q", 103.0), ("R", 99.0)):
+            pts[q]["z"] = z
+        pts["F1"]["status"] = "fix"
+        its = [{"from": "F1", "to": "Q", "val": 3.0 + 5.0, "stdev": 12.0},          # blunder: passive, first
+               {"from": "Q", "to": "F1", "val": -3.0005, "stdev": 1.0}, {"from": "Q", "to": "R", "val": -4.0007, "stdev": 2.0},
+               {"from": "R", "to": "F2", "val": 2.5004, "stdev": 3.0}, {"from": "F2", "to": "Q", "val": 1.4996, "stdev": 1.5}]
+        extra.append({"kind": "hdiffs", "items": its})
+    elif mech in ("blunder-coords", "blunder-vectors"):
+        corr = True
+        if mech == "blunder-coords":
+            n = 4
+            cov = spd_cov(rng, n, corr, 3.0, 6.0)
+            items = [{"id": "R", "x": pts["R"]["x"] + 5.0, "y": pts["R"]["y"] + 0.003},      # x of R: blunder, passive, first
+                     {"id": "Q", "x": pts["Q"]["x"] - 0.002, "y": pts["Q"]["y"] + 0.004}]
+            extra.append({"kind": "coords", "items": items, "cov": cov, "band": n - 1})
+        else:
+            for q, z in (("F1", 100.0), ("F2", 101.5), ("F3", 98.0), ("Q", 103.0), ("R", 99.0)):
+                pts[q]["z"] = z
+            n = 6
+            cov = spd_cov(rng, n, corr, 2.0, 5.0)
+            vec = lambda a, b, off=0.0: {"from": a, "to": b, "dx": pts[b]["x"] - pts[a]["x"] + off + rng.gauss(0, 2e-3),
+                                         "dy": pts[b]["y"] - pts[a]["y"] + rng.gauss(0, 2e-3),
+                                         "dz": pts[b]["z"] - pts[a]["z"] + rng.gauss(0, 2e-3)}
+            extra.append({"kind": "vectors", "items": [vec("F1", "Q", off=6.0), vec("F2", "R")], "cov": cov, "band": n - 1})
+            extra.append({"kind": "vectors", "items": [vec("F3", "Q"), vec("F3", "R")], "cov": spd_cov(rng, n, False, 2.0, 5.0), "band": 0})
+    else:
+        raise ValueError(mech)
+    obs = [{"kind": "obs", "from": f, "orient": 0.0, "items": it} for f, it in st.items()] + extra
+    return {"dim": 2, "points": pts, "obs": obs,
+            "params": {"sigma-apr": 10, "conf-pr": 0.95, "tol-abs": 1000, "sigma-act": "aposteriori"}}
+
+
+PASSIVE_MECHS = ("lone-dir", "no-coords", "blunder", "blunder-dh", "blunder-coords", "blunder-vectors")
+
+
+def passive_random(rng):
+    """a generated fixed 2D network (directions + distances) in which 1..3 observations are made passive by one of the
+    three mechanisms, each IN FRONT of other observations of its <obs> cluster; every stdev of such a cluster differs"""
+    npts = rng.randint(4, 6)
+    net = gen_net.make_network(rng, npts=npts, nfixed=rng.randint(2, 3), noise=1.0, kinds=("direction", "distance"),
+                               density=rng.uniform(0.7, 0.95), stdev_dir=rng.choice([5.0, 10.0, 20.0]),
+                               stdev_dist=rng.choice([2.0, 5.0, 8.0]))
+    pts = net["points"]
+    mech = rng.choice(["lone-dir", "no-coords", "blunder", "blunder", "mixed"])
+    blocks = [o for o in net["obs"] if o["kind"] == "obs" and sum(1 for it in o["items"] if it["t"] == "distance") >= 2]
+    rng.shuffle(blocks)
+    for o in blocks[:rng.randint(1, 3)]:
+        m = rng.choice(["lone-dir", "no-coords", "blunder"]) if mech == "mixed" else mech
+        for j, it in enumerate(o["items"]):                     # all standard deviations of the cluster different
+            it["stdev"] = round(it["stdev"] * (1.0 + 0.37 * j), 4)
+        if m == "lone-dir":
+            dirs = [it for it in o["items"] if it["t"] == "direction"]
+            keep = rng.choice(dirs) if dirs else None
+            o["items"] = ([keep] if keep else []) + [it for it in o["items"] if it["t"] != "direction"]
+            if keep is None:
+                m = "blunder"
+        if m == "no-coords":
+            xid = "X" + o["from"]
+            pts[xid] = {"status": "adj", "approx": False, "x": 0.0, "y": 0.0}
+            o["items"].insert(rng.randint(0, max(0, len(o["items"]) - 2)),
+                              {"t": "distance", "to": xid, "stdev": round(rng.uniform(11, 30), 3), "val": rng.uniform(20, 90)})
+        if m == "blunder":
+            cand = [j for j, it in enumerate(o["items"][:-1]) if it["t"] == "distance"]
+            if cand:
+                o["items"][rng.choice(cand)]["val"] += rng.choice([-1, 1]) * rng.uniform(3.0, 30.0)
+                # Once ONE absolute term is huge, remove_huge_abs_terms() re-tests every observation -- directions and
+                # angles on the vector b that prepareProjectEquations() has meanwhile homogenised in place (x sigma-apr/stdev),
+                # so with sigma-apr/stdev >~ 100 ordinary directions are removed as well and the set of adjusted
+                # observations depends on sigma-apr (candidate finding, see notes/reports/C09.md round 5).  That is not
+                # the subject of this family: sigma-apr stays where the re-test of a 1-sigma direction cannot trip.
+                # (registered as known finding C09-F3; sigma-apr is no longer capped for this family)
+                net["blunder"] = True
+    return "passive:" + mech, net
+
+
 def gen_network(rng, quick=True, boundary=False):
     """returns (family, net) ; family names the generator branch"""
     r = rng.random()
     if boundary or r < 0.08:
         fam, net = diag_block_network(rng)
+    elif r < 0.14:
+        fam, net = passive_random(rng)
     elif r < 0.18:
         fam, net = net3d(rng)
     elif r < 0.32:
@@ -305,7 +452,7 @@ def sigma_choices(net, lo=1e-3, hi=1e4):
     then span 1e-6 .. 1e8).  Below ~1.2e-4 envelope/cholesky refuse regular networks (finding C09-F2)."""
     fs = flat_stdevs(net) or []
     sds = [sd for sd, _ in fs if sd] or [1.0]
-    ok = [s for s in SIGMAS if s / max(sds) >= lo and s / min(sds) <= hi]
+    ok = [s for s in SIGMAS if s / max(sds) >= lo and s / min(sds) <= hi and s <= net.get("sigma_max", float("inf"))]
     return ok or [10]
 
 
@@ -334,6 +481,72 @@ def flat_stdevs(net):
         else:
             return None
     return out
+
+
+OBS_TAG = {"direction": "direction", "distance": "distance", "angle": "angle", "s-distance": "slope-distance",
+           "z-angle": "zenith-angle", "azimuth": "azimuth"}
+
+
+def flat_keys(net):
+    """(result tag, from, to / id) of every observation of the input, parallel to flat_stdevs(net); None if unknown"""
+    out = []
+    for o in net["obs"]:
+        if o["kind"] == "obs":
+            for it in o["items"]:
+                if it["t"] not in OBS_TAG:
+                    return None
+                out.append((OBS_TAG[it["t"]], o["from"], it.get("to")))
+        elif o["kind"] == "hdiffs":
+            for it in o["items"]:
+                out.append(("height-diff", it["from"], it["to"]))
+        elif o["kind"] == "vectors":
+            for it in o["items"]:
+                for c in ("dx", "dy", "dz"):
+                    out.append((c, it["from"], it["to"]))
+        elif o["kind"] == "coords":
+            for it in o["items"]:
+                for c in ("x", "y", "z"):
+                    if c in it:
+                        out.append(("coordinate-" + c, None, it["id"]))
+        else:
+            return None
+    return out
+
+
+def align_reported(net, stdevs, robs):
+    """The reported observations are the ACTIVE ones, a subsequence (in input order) of the observations of the input.
+    Returns (stdevs of the reported observations, None) when there is exactly one way to embed the reported list
+    (type + from + to/id) into the input list, else (None, 'failed' | 'ambiguous')."""
+    keys = flat_keys(net)
+    if keys is None or stdevs is None or len(keys) != len(stdevs):
+        return None, "failed"
+
+    def match(k, o):
+        if k[0] != o["t"]:
+            return False
+        rt = o.get("to") if o.get("to") is not None else o.get("id")
+        return (k[1] is None or o.get("from") is None or k[1] == o.get("from")) and (k[2] is None or rt is None or k[2] == rt)
+
+    left, i = [], 0
+    for o in robs:
+        while i < len(keys) and not match(keys[i], o):
+            i += 1
+        if i == len(keys):
+            return None, "failed"
+        left.append(i)
+        i += 1
+    right, i = [], len(keys) - 1
+    for o in reversed(robs):
+        while i >= 0 and not match(keys[i], o):
+            i -= 1
+        if i < 0:
+            return None, "failed"
+        right.append(i)
+        i -= 1
+    right.reverse()
+    if left != right:
+        return None, "ambiguous"
+    return [stdevs[i] for i in left], None
 
 
 # ------------------------------------------------------------------------------------ quantiles (oracle side)
@@ -531,9 +744,35 @@ def oracle_accessor(op, rep):
                                 f"alfa={al!r} cxx={cxx!r} cxy={cyx!r} cyy={cyy!r} |(C - l1 I)u|={res:.3e} trace={tr:.3e}"))
             if not (0 <= al <= math.pi):
                 bad.append(("accessor ellipse alfa in [0, pi)", repr(al)))
+        elif kind == "cidx":
+            # the observation at position k of its cluster's list (found by pointer search, counting ALL observations):
+            # cluster_index is that position and Observation::stdDev() the square root of ITS OWN variance,
+            # whatever the activity of the other observations of the cluster
+            k, flags, diag = int(t[1]), t[2], [F(x) for x in t[3:]]
+            if not (0 <= k < len(flags)) or len(diag) != len(flags):
+                bad.append(("observation not found in its cluster's list / covariance dimension differs from the list",
+                            f"position={k} observations={len(flags)} cov-dim={len(diag)}"))
+            else:
+                if rep[0] != str(k):
+                    bad.append(("cluster_index = position of the observation in the full list of its cluster",
+                                f"reported={rep[0]} position={k} active flags={flags}"))
+                close("Observation::stdDev() = sqrt(own variance), independent of passive observations in the cluster",
+                      F(rep[1]), math.sqrt(diag[k]) if diag[k] >= 0 else float("nan"), rtol=1e-15)
     except (ValueError, IndexError, ZeroDivisionError, OverflowError) as e:
         bad.append(("accessor line unreadable", f"{op} => {rep}: {e!r}"))
     return bad
+
+
+def seeded_rule_differs(op):
+    """a `cidx` line on which an index that counts ACTIVE observations only (seeded change C09-seed4) would read another
+    variance: some earlier observation of the cluster is passive and the variance at (number of active before k) differs"""
+    t = op.split()
+    try:
+        k, flags, diag = int(t[1]), t[2], [hex2float(x) for x in t[3:]]
+        a = flags[:k].count("1")
+        return a != k and 0 <= k < len(diag) and diag[a] != diag[k]
+    except (ValueError, IndexError):
+        return False
 
 
 def oracle_xml(R, net, stdevs):
@@ -619,7 +858,10 @@ def oracle_xml(R, net, stdevs):
     n += 1
     if len(R["ell"]) != sum(1 for k in R["order"] if k[1] == "x"):
         bad.append(("ellipse count", f"{len(R['ell'])} ellipses, {sum(1 for k in R['order'] if k[1] == 'x')} xy points"))
-    # observations
+    # observations: when some are passive (not reported) the input standard deviations are aligned with the reported list
+    if stdevs is not None and len(stdevs) != len(R["obs"]) and len(R["obs"]) == R["eq"]:
+        stdevs, why = align_reported(net, stdevs, R["obs"])
+        mx["obs_align_" + (why or "ok")] = mx.get("obs_align_" + (why or "ok"), 0) + 1
     if stdevs is None or len(stdevs) != len(R["obs"]) or len(R["obs"]) != R["eq"]:
         mx["obs_skipped"] = mx.get("obs_skipped", 0) + 1
         return bad, n, mx
@@ -837,6 +1079,15 @@ def check_cases(ctx, corr, cases, exe, gama, tmp, do_pairs=True, prefix="n"):
                 cyy, cyx, cxx = (hex2float(x) for x in op.split()[1:4])
                 corr.count("ellipse_block_" + ("exact_diag_" + ("circle" if cyy == cxx else "y>x" if cyy > cxx else "x>y")
                                                if cyx == 0.0 else "general"))
+            if op.startswith("cidx "):
+                tt = op.split()
+                if "0" in tt[2]:
+                    corr.count("obs_in_cluster_with_passive")
+                if "0" in tt[2][:int(tt[1])] if tt[1].isdigit() else False:
+                    corr.count("obs_after_passive_in_cluster")
+                if seeded_rule_differs(op):
+                    corr.count("obs_after_passive_with_other_variance")
+                    c["sensitive"] = True
             if op.startswith("obs "):
                 tt = op.split()
                 q = abs(hex2float(e[2]))
@@ -934,6 +1185,8 @@ def check_cases(ctx, corr, cases, exe, gama, tmp, do_pairs=True, prefix="n"):
         for kx, vx in mx.items():
             if kx == "obs_skipped":
                 corr.count("xml_obs_checks_skipped", vx)
+            elif kx.startswith("obs_align_"):
+                corr.count("xml_passive_networks_" + kx[4:], vx)
             elif kx == "alpha_rounded_to_pi":
                 corr.count("ellipse_alpha_rounded_to_M_PI", vx)
             else:
@@ -1074,6 +1327,12 @@ def structured_nets():
     for j, (nm, net) in enumerate((("trilat", t1), ("diag", t2), ("trilat-dof2", t3), ("level", t4))):
         net["params"]["sigma-act"] = ("aposteriori", "apriori")[j % 2]
         out.append((f"structured:triple[{nm}]", net, ["gso", "svd"], TRIPLE_SIGMAS))
+    # a passive observation in front of active ones with other standard deviations, every mechanism / cluster kind
+    for j, mech in enumerate(PASSIVE_MECHS):
+        net = passive_net(rng, mech)
+        net["params"]["sigma-act"] = ("aposteriori", "apriori")[j % 2]
+        net["params"]["sigma-apr"] = (10, 2, 5)[j % 3]
+        out.append((f"structured:passive[{mech}]", net, ALGS, None))
     return out
 
 
@@ -1216,11 +1475,22 @@ def correspond(ctx, corr):
                 found = search(ctx, [], corr, grid=(hits, npts))
                 corr.failures[:0] = found
                 corr.count("search_failures_found", len(found))
+        for f in corr.failures:                       # evidence only: which family the (known) failures come from
+            fam = str(f.replay.get("family", "?")) if isinstance(f.replay, dict) else "?"
+            corr.count("failures_" + str(classify(ctx, f)) + "_" + fam.split("[")[0].split(":")[0]
+                       + (":passive" if "passive" in fam else "") + "_" + str(f.replay.get("oracle") if isinstance(f.replay, dict) else None))
         # the deterministic structured networks first: their failures are the easiest to read
         corr.failures.sort(key=lambda f: 0 if isinstance(f.replay, dict) and str(f.replay.get("family", "")).startswith("structured") else 1)
         for need in ("dof_0", "dof_1", "act_apriori", "act_aposteriori", "defect_3", "defect_0"):
             if not corr.stats.get(need):
                 corr.inconclusive.append(f"no generated case with {need}")
+        # the numbering of a cluster's observations is only exercised by an active observation BEHIND a passive one whose
+        # variance differs from the one an active-only count would read
+        nsens = sum(1 for c in cases if c.get("sensitive"))
+        corr.count("networks_with_obs_after_passive_with_other_variance", nsens)
+        if corr.stats.get("obs_after_passive_with_other_variance", 0) < 20 or not corr.stats.get("xml_passive_networks_align_ok", 0) >= 5:
+            corr.inconclusive.append("fewer than 20 adjusted observations behind a passive observation of their cluster with another "
+                                     "variance, or fewer than 5 such networks whose XML result could be aligned with the input")
     finally:
         shutil.rmtree(tmp, ignore_errors=True)
 
@@ -1267,6 +1537,8 @@ GEN_KIND = {  # broken theorem / definition name -> grid op kinds that exercise 
     "dof": ("dof",), "unknownStdev": ("unk",), "covEntry": ("cov",), "errObsAdj": ("err",), "err": ("err",),
     "confHalfWidth": ("hw", "conf", "unk"), "halfwidth": ("hw", "conf", "unk"), "halfWidthSites": ("hw", "conf", "unk"),
     "stdev_of_solver": ("unk", "obs"), "solver": ("unk", "obs", "ell", "dof"),
+    "clusterWalk": ("cidx",), "clusterUpdate": ("cidx",), "clusterStdDev": ("cidx",), "weight_obs_is_own_variance": ("cidx", "obs"),
+    "cluster_index_sigma": ("cidx", "obs"), "c09_cluster": ("cidx",),
 }
 
 
@@ -1327,6 +1599,13 @@ def guard_grid():
             ops.append(f"hw {H(sd)} {H(kki)}")
     for pr in (0.0, 1.0, -0.0, -1e-300, 5e-324, 1 - 2 ** -53, 1 + 2 ** -52, 0.5, 0.95, 2.0, -3.0):
         ops.append(f"accept {H(pr)}")
+    # clusters of 1..5 observations, every activity pattern, every position; all variances different
+    var = [25.0, 9.0, 49.0, 4.0, 0.25]
+    for nobs in range(1, 6):
+        for mask in range(2 ** nobs):
+            flags = "".join("1" if mask >> j & 1 else "0" for j in range(nobs))
+            for k in range(nobs):
+                ops.append(f"cidx {k} {flags} " + " ".join(H(v) for v in var[:nobs]))
     return ops
 
 
@@ -1334,7 +1613,7 @@ def definition_check(op, rep):
     """a driver answer against the definition of the quantity (Python, independent of both Lean models)"""
     t = op.split()
     F = hex2float
-    if t[0] in ("dof", "m0", "conf", "unk", "obs", "ell"):
+    if t[0] in ("dof", "m0", "conf", "unk", "obs", "ell", "cidx"):
         return oracle_accessor(op, rep)
     bad = []
 
@@ -1403,7 +1682,8 @@ def describe_hit(h):
     names = {"ell": ("cyy", "cyx", "cxx", "m0"), "obs": ("m0", "sigma_apr", "q_bb", "stdev", "residual"),
              "m0": ("sigma_act", "sigma_apr", "vPv", "dof"), "conf": ("sigma_act", "conf_pr", "dof", "p", "normal", "student"),
              "dof": ("rows", "cols", "defect"), "unk": ("m0", "q_xx"), "cov": ("m0", "q"), "xml": ("vPv", "sigma_apr", "dof"),
-             "err": ("v", "q_vv", "weight"), "accept": ("p",), "hw": ("stdev", "coefficient")}.get(t[0], ())
+             "err": ("v", "q_vv", "weight"), "accept": ("p",), "hw": ("stdev", "coefficient"),
+             "cidx": ("position_in_cluster", "active_flags") + tuple(f"variance_{q + 1}" for q in range(len(t)))}.get(t[0], ())
     out = lambda l: [hex2float(x) if is_hex(x) else x for x in l.split()[1:]]
     return {"formula": t[0], "argument": dict(zip(names, vals)), "regenerated_formula_gives": out(h["gen"]),
             "reference_model_gives": out(h["ref"]), "definition_violated": h["violations"]}
@@ -1504,6 +1784,11 @@ def realise(ctx, hits, kinds):
             net = gen_net.make_network(rng, npts=rng.randint(4, 6), nfixed=0 if rep % 2 else 2, free=bool(rep % 2), noise=1.0,
                                        kinds=("direction", "distance"), density=0.8)
             add("free2d" if rep % 2 else "fixed2d", net, ALGS, hit)
+    # ---- numbering of the observations of a cluster: a passive observation in front of active ones
+    if "cidx" in kinds or by.get("cidx"):
+        hit = describe_hit(by["cidx"][0]) if by.get("cidx") else None
+        for mech in PASSIVE_MECHS:
+            add(f"passive[{mech}]", passive_net(rng, mech), ALGS if mech in PASSIVE_MECHS[:3] else ["gso"], hit)
     for i, c in enumerate(cases):
         c["rix"] = i
     return cases
@@ -1512,18 +1797,19 @@ def realise(ctx, hits, kinds):
 def props_current(ctx):
     """did Gama.Props.C09 build against the current regenerated formulas (lake leaves no .olean after an error)"""
     gen = ctx.lean / "Gama" / "Gen" / "StatsGen.lean"
+    gen2 = ctx.lean / "Gama" / "Gen" / "ClusterUpdate.lean"
     try:
-        for n in ("C09", "C09Solvers"):
+        for n, g in (("C09", gen), ("C09Solvers", gen), ("C09Cluster", gen2)):
             olean = ctx.lean / ".lake" / "build" / "lib" / "lean" / "Gama" / "Props" / (n + ".olean")
             src = ctx.lean / "Gama" / "Props" / (n + ".lean")
-            if olean.stat().st_mtime < max(gen.stat().st_mtime, src.stat().st_mtime):
+            if olean.stat().st_mtime < max(g.stat().st_mtime, src.stat().st_mtime):
                 return False
         return True
     except OSError:
         return False
 
 
-ALL_KINDS = ["conf", "dof", "ell", "m0", "obs", "unk", "xml"]
+ALL_KINDS = ["cidx", "conf", "dof", "ell", "m0", "obs", "unk", "xml"]
 
 
 def search(ctx, broken, corr, grid=None):
@@ -1539,7 +1825,7 @@ def search(ctx, broken, corr, grid=None):
     names = " ".join(getattr(b, "name", "") + " " + getattr(b, "detail", "")[:400] for b in broken)
     kinds = sorted({k for nm, ks in GEN_KIND.items() if re.search(r"(gen_|C09_|StatsGen\.|stats:)\w*" + nm, names) for k in ks})
     for di in dis:
-        kinds = sorted(set(kinds) | {di["stream"].split(":")[-1]} & {"ell", "obs", "m0", "conf", "dof", "unk"})
+        kinds = sorted(set(kinds) | {di["stream"].split(":")[-1]} & {"ell", "obs", "m0", "conf", "dof", "unk", "cidx"})
     hits, npts = grid or ([], 0)
     if grid is None:
         ok, log = ctx.lake_build(["drv_stats"])                    # the driver must be the one of the CURRENT Gen file
@@ -1617,6 +1903,13 @@ def classify(ctx, failure):
     # F1: every violated field is the sigma_L of an exactly linear observation of a cluster with band != 0
     if v and all(any(m in x[0] for m in F1_MARKS) and "(band=0)" not in x[0] for x in v):
         return "C09-F1"
+    # F3: next to a genuine outlier remove_huge_abs_terms() re-tests directions/angles on the homogenised b, so WHICH of
+    # them are removed depends on sigma-apr (root cause of C14-F1): pair oracle, planted blunder, the two runs differ in
+    # the number of equations / unknowns; any algorithm
+    fam = str(p.get("family") or p.get("fam") or "")
+    if p.get("oracle") == "pair" and ((p.get("net") or {}).get("blunder") or "huge-abs-retest" in fam) and v \
+            and v[0][0] in ("eq", "unk", "dof", "observation count"):
+        return "C09-F3"
     # F2: envelope / cholesky test pivots against the ABSOLUTE tolerance sqrt(eps) = 1.5e-8, while pivots scale with
     # the weights (sigma-apr/stdev)^2: weights below ~1e-6 make a regular network "singular", weights above ~1e5 hide the
     # zero pivots of a free network; shows as a refusal or as removed points (different numbers of equations /
